@@ -5,7 +5,13 @@ the identity on normalised URLs.
 Theorems: lean/I18nVerif/Theorems/C14.lean.  Correspondence: harness router_h (the private functions of
 leptos_i18n_router/src/routing.rs: get_locale_from_path, get_new_path, match_path_segments,
 construct_path_segments, localize_path, PathBuilder) vs the Lean model `I18nVerif.Router`; property oracle
-`Spec.localeOk` / `Spec.switchOk` / round-trip hypotheses evaluated by the Lean driver on the implementation's answer."""
+`Spec.localeOk` / `Spec.switchOkFull` / round-trip hypotheses evaluated by the Lean driver on the implementation's answer.
+`Spec.switchOkFull` (= `Spec.switchOkStrong`) = `Spec.switchOk` (base, prefix, every remaining segment kept or replaced by
+its counterpart, query, fragment) AND, when both locales have a route table: if a route of the old locale serves the old
+remaining segments (`Spec.servesRow`, declarative: the way leptos_router serves them), the route with the same index of the
+new locale serves the new ones - so a localized segment that is merely copied is a violation with a concrete input
+(theorems `C14_switch_rewrites_localized`, `C14_match_iff_serves`).  Before the repair e02576e of match_path_segments the
+code did not meet this on routes ending in an index route / optional param / splat; those shapes are corpus witnesses."""
 from .common import *
 
 SETS = ["A", "B", "C", "D"]
@@ -18,7 +24,12 @@ RULE = ("URLs over four locale sets whose names are prefixes of each other and o
         "leading '#'; no route tables, or tables for all/some locales generated from one random route tree "
         "(localized statics, params, optionals, splat, unit), about 10% deliberately incompatible; single switches, "
         "switch sequences of length 1-6, there-and-back round trips from normalised URLs, and the four helper functions "
-        "directly; non-trivial = the path is under the base path (locale reads: and has a segment after it; round trips: "
+        "directly; a switch is judged by Spec.switchOkFull: base path, new prefix, every remaining segment kept or "
+        "replaced by its counterpart, query and fragment preserved, and (both locales having a route table) the new "
+        "remaining segments served by the same route of the new locale whenever a route of the old locale serves the old "
+        "ones (Spec.servesRow: static = that segment, empty static/unit = nothing, param = one, optional = zero or one, "
+        "splat = the rest); routes end in an empty static / an optional param (absent, or present with any value) / a "
+        "splat (with nothing or something left) about as often as not; non-trivial = the path is under the base path (locale reads: and has a segment after it; round trips: "
         "all hypotheses of the round-trip theorem hold; helpers: the pattern matches / no panic / something is pushed); "
         "distinct = distinct JSON cases (set, path, base, query, fragment, locales, tables)")
 
@@ -38,6 +49,10 @@ STATICS = sorted({w for vs in DICT.values() for w in vs} | set(SAME))
 PUSHES = ["", "/", "foo", "/foo", "foo/", "/foo/", "//a//b//", "a/b", "a//b", "///", "x", "en", "/fr/"]
 DIRECT = ("match", "construct", "localize", "path_builder")
 
+# the three shapes the former match_path_segments did not recognise (repaired in e02576e)
+TRAILING_TABLES = {"0": [[["s", ""], ["s", "about"], ["s", ""]]], "2": [[["s", ""], ["s", "a-propos"], ["s", ""]]]}
+OPTIONAL_TABLES = {"0": [[["s", ""], ["s", "about"], ["o", "id"]]], "2": [[["s", ""], ["s", "a-propos"], ["o", "id"]]]}
+SPLAT_TABLES = {"0": [[["s", ""], ["s", "users"], ["w", "rest"]]], "2": [[["s", ""], ["s", "utilisateurs"], ["w", "rest"]]]}
 ABOUT_TABLES = {"0": [[["s", ""], ["s", "about"], ["p", "id"]]], "2": [[["s", ""], ["s", "a-propos"], ["p", "id"]]]}
 
 
@@ -95,6 +110,8 @@ def gen_tree(rng):
                 row.append(("u",))
             else:
                 row.append((k, rng.pick(PNAMES)))
+        if row and rng.chance(1, 5):
+            row.append(("e",))              # an index route (`<Route path="">`) under a parent route: a trailing empty static
         rows.append(row)
     return rows
 
@@ -175,8 +192,8 @@ def segs_for_row(rng, row, names):
         elif s[0] == "p":
             out.append(word(rng, names))
         elif s[0] == "o":
-            if rng.chance(1, 2):
-                out.append(s[1])
+            if rng.chance(1, 2):            # present: any value (now and then the parameter's own name)
+                out.append(s[1] if rng.chance(1, 5) else word(rng, names))
         elif s[0] == "w":
             out += [word(rng, names) for _ in range(rng.range(0, 2))]
     return out
@@ -382,6 +399,12 @@ def judge(c, r, m, sibling=None):
             if frag_only:
                 res["sig"] = "get_new_path:fragment"
                 res["why"] = "the URL fragment is not preserved (the same switch without a fragment is right)"
+            elif m.get("spec_weak_ok_impl") is True:
+                res["sig"] = "get_new_path:localized-segment-not-rewritten"
+                res["why"] = ("a route of the old locale serves the remaining segments of the old URL, but the route with the "
+                              "same index in the new locale's table does not serve the remaining segments of the new URL: a "
+                              "localized segment was copied instead of being replaced by its counterpart "
+                              "(Spec.switchOk holds, Spec.switchOkFull does not)")
             else:
                 res["sig"] = "get_new_path:prefix-or-rest-not-preserved"
                 res["why"] = ("the new pathname must be: base path segments, the new locale's prefix (none for the default), "
@@ -397,15 +420,16 @@ def judge(c, r, m, sibling=None):
         b.append("seq_compat=" + ("yes" if m["compat"] else "no"))
         res["nontrivial"] = not mpanic and m["under_base"]
         if m["compat"]:
-            # every step judged by Spec.switchOk, every pathname read back judged by Spec.localeOk
+            # every step judged by Spec.switchOkFull, every pathname read back judged by Spec.localeOk
             if mpanic or m["spec_ok_model"] is not True:
                 raise HarnessError("model violates its own proved specification: " + json.dumps(c) + " -> " + json.dumps(m))
             if failed(r):
                 res["sig"], res["why"] = "new_path-panics", "get_new_path panicked although the route tables are compatible"
             elif not m["spec_ok_impl"]["steps"]:
                 res["sig"] = "switch_seq:step-not-preserving"
-                res["why"] = ("some step of the history does not satisfy Spec.switchOk (base path segments, new locale's "
-                              "prefix, remaining segments changed only in localized segments)")
+                res["why"] = ("some step of the history does not satisfy Spec.switchOkFull (base path segments, new locale's "
+                              "prefix, remaining segments changed only in localized segments, and served by the same route "
+                              "of the new locale when a route of the old locale serves them)")
             elif not m["spec_ok_impl"]["reads"]:
                 res["sig"] = "locale_from_path:not-whole-segment"
                 res["why"] = "a locale read back from a pathname of the history is not the one named by its first whole segment"
@@ -511,6 +535,13 @@ def corpus():
         cs.append(np("/franchise", base, 0, 2, "/franchise?a=1", "a=1", ""))
         cs.append(np("/fr/a-propos/5", base, 0, 2, "/about/5", tables=ABOUT_TABLES))
         cs.append(np("/about/5", base, 2, 0, "/fr/a-propos/5#top", hash_="top", tables=ABOUT_TABLES))
+        cs.append(np("/about", base, 2, 0, "/fr/a-propos", tables=TRAILING_TABLES))
+        cs.append(np("/fr/a-propos", base, 0, 2, "/about", tables=TRAILING_TABLES))
+        cs.append(np("/about", base, 2, 0, "/fr/a-propos", tables=OPTIONAL_TABLES))
+        cs.append(np("/about/5", base, 2, 0, "/fr/a-propos/5", tables=OPTIONAL_TABLES))
+        cs.append(np("/about/id", base, 2, 0, "/fr/a-propos/id?a=1", search="a=1", tables=OPTIONAL_TABLES))
+        cs.append(np("/users", base, 2, 0, "/fr/utilisateurs", tables=SPLAT_TABLES))
+        cs.append(np("/users/a/b", base, 2, 0, "/fr/utilisateurs/a/b", tables=SPLAT_TABLES))
     for base in ("foo", "/foo", "foo/", "/foo/"):
         cs.append(np("/foo/fr/bar", base, 1, 2, "/foo/en-US/bar"))
     for base, a, b, r, t in [("foo", 2, 1, ["bar"], {}), ("", 0, 2, ["english-page"], {}), ("/", 0, 2, ["english-page"], {}),
